@@ -32,6 +32,13 @@ type OblStat struct{ Total, Trivial, Unsat, Sat, Unknown int }
 
 type pathEnd struct{ reason string }
 
+// LongJmp travels up the host stack from a siglongjmp to the frame that called
+// sigsetjmp on the same buffer.
+type LongJmp struct {
+	Buf uint64
+	Val *smt.Term
+}
+
 type Machine struct {
 	S   *smt.Solver
 	Mem *Mem
